@@ -64,3 +64,18 @@ Theorem C02_refusal_reply :
     s_out s' = s_out s /\ s_vals s' = s_vals s.
 Proof. exact C02Restart.refusal_reply. Qed.
 Print Assumptions C02_refusal_reply.
+
+From DT Require GenHandlers HandlerEq.
+
+(* every restart path of Node.v (the API call with its terminated / cleaning-up / by-role branches, the
+   re-issued push request and pull transport request, the responder's revalidate-then-ask) runs, for every
+   interpreter state, exactly like the program regenerated from impl/impl.go RestartDataTransferChannel and
+   impl/restart.go on every run *)
+Theorem C02_restart_handlers_are_the_sources : forall k c,
+  HandlerEq.runs_like (HandlerEq.with_self (fun self => GenHandlers.gen_RestartDataTransferChannel self k)) (Node.restart_channel k) /\
+  HandlerEq.runs_like (GenHandlers.gen_openPushRestartChannel c) (Node.open_push_restart c) /\
+  HandlerEq.runs_like (GenHandlers.gen_openPullRestartChannel c) (Node.open_pull_restart c) /\
+  HandlerEq.runs_like (GenHandlers.gen_restartManagerPeerReceivePush c) (Node.restart_received c) /\
+  HandlerEq.runs_like (GenHandlers.gen_restartManagerPeerReceivePull c) (Node.restart_received c).
+Proof. exact HandlerEq.restart_handlers_are_source. Qed.
+Print Assumptions C02_restart_handlers_are_the_sources.
